@@ -30,6 +30,20 @@ Definition swap_remove {A} (i : nat) (l : list A) : list A :=
   | None => l
   end.
 
+(* extendRoamMessage prints math.Floor(meters*1000)/1000: on metres scaled to integer micrometres
+   this is the floor to whole millimetres *)
+Definition round_mm (d_um : Z) : Z := Z.div d_um 1000.
+
+(* extendRoamMessage's "scan" member (ROAM key pattern meters SCAN glob): the matched neighbour itself
+   first (marked self) when it still exists, then the objects of the roam collection, in id order,
+   whose id matches  match.id ++ glob, except the neighbour itself.  ids = the collection's ids in
+   ascending order (col.Scan / col.ScanRange over the range glob.Parse allows: C12) *)
+Definition scan_ids (ids : list bytes) (mid scan : bytes) : list (bool * bytes) :=
+  (if existsb (bytes_eqb mid) ids then [(true, mid)] else []) ++
+  map (fun i => (false, i))
+      (filter (fun i => negb (bytes_eqb i mid) &&
+                        match glob_match (mid ++ scan) i with WTrue => true | _ => false end) ids).
+
 Section Roam.
   Variable G : Type.
   Variable dist : G -> G -> Z.
